@@ -11,6 +11,15 @@ func zzIsClosed(ch <-chan struct{}) bool {
 	}
 }
 
+type zzC14Handler struct {
+	serve  func(Conn, *Message)
+	report func(*ErrorReport)
+}
+
+func (h *zzC14Handler) ServeDIAM(c Conn, m *Message)      { h.serve(c, m) }
+func (h *zzC14Handler) Error(er *ErrorReport)             { h.report(er) }
+func (h *zzC14Handler) ErrorReports() <-chan *ErrorReport { return nil }
+
 // zzC14_notify: diam.NewConn on an in-memory transport; a case-split sequence of <= E events from
 // {CloseNotify requested from a handler, requested from another goroutine while the reader is
 // blocked, message delivered whole, message delivered in two fragments, peer EOF, transport read
@@ -22,13 +31,25 @@ func zzC14_notify() {
 	var delivered []uint32
 	var chans []<-chan struct{}
 	wantNotifyInHandler := false
-	h := HandlerFunc(func(c Conn, m *Message) {
-		delivered = append(delivered, m.Header.HopByHopID)
-		if wantNotifyInHandler {
-			wantNotifyInHandler = false
-			chans = append(chans, c.(CloseNotifier).CloseNotify())
-		}
-	})
+	wantNotifyInError := false
+	h := &zzC14Handler{
+		serve: func(c Conn, m *Message) {
+			delivered = append(delivered, m.Header.HopByHopID)
+			if wantNotifyInHandler {
+				wantNotifyInHandler = false
+				chans = append(chans, c.(CloseNotifier).CloseNotify())
+			}
+		},
+		// the error reporter runs in the connection's goroutine after the transport was closed and
+		// before the connection is torn down: a CloseNotify request from there lands in that window
+		report: func(er *ErrorReport) {
+			if wantNotifyInError && er.Conn != nil {
+				wantNotifyInError = false
+				vQuiesce() // let the connection's other goroutines (the pipe copier) notice the closed transport first
+				chans = append(chans, er.Conn.(CloseNotifier).CloseNotify())
+			}
+		},
+	}
 	c, err := NewConn(t, "zz", h, d)
 	vAssume(err == nil)
 	vQuiesce()
@@ -78,6 +99,7 @@ func zzC14_notify() {
 			if !terminated {
 				bad := zzPlainMessage(257, 0x80, 0, 0xdead)
 				bad[1], bad[2], bad[3] = 0, 0, 5
+				wantNotifyInError = zzFlag("notifyFromErrorReport")
 				tail := zzPlainMessage(257, 0x80, 0, 0xbeef)
 				if zzFlag("bigTrailer") {
 					// more trailing data than the connection's 4 KiB read buffer takes in one gulp
